@@ -23,7 +23,9 @@ Oracles on the real code (independent of the Lean model)
   clock law (last set value + completed calls since); exact rational `A x + B u + c` per batch item;
   Jacobians against 50-digit numerical differentiation (mpmath) of an independent evaluator of the trees;
   `A x* + B u* + c1 = f(x*,u*,t*)` with f re-evaluated through the real `state_transition`;
-  Lagrange bound `|f(p*+h d) - affine(p*+h d)| <= max|phi''| h^2 / 2` with a rigorous bound of `phi''`.
+  second-order bound `|f(p*+h d) - affine(p*+h d)| <= K` with K the explicit constant of theorem nls_second_order_explicit,
+  evaluated by the model (driver op c15.bnd); whole-batch results of bmv / bvv / bvmv / one LTI forward against the model's
+  own broadcasting (c15.bb, theorems bmv_batched … lti_batched).
 """
 from __future__ import annotations
 
@@ -73,8 +75,7 @@ META = {
                   "identity / zero matrices; batch sizes 5, 7, 3x3 and equal to n, m, p, T",
     "partial": ["IEEE rounding is not modelled: the float code is compared with the exact model at 64·eps·(sum of "
                 "absolute term magnitudes)",
-                "second-order constant K in nls_second_order is existential (not computed); the harness checks the "
-                "Lagrange form with a rigorous bound of the second directional derivative",
+                "the explicit second-order constant (Fn.bnd, nls_second_order_explicit) is an upper bound, not the least constant",
                 "non-mutation of caller tensors is monitored, not proved"],
 }
 
@@ -249,33 +250,6 @@ def tree_mag(t, ea, nv):
     if n == 0:
         return 1.0, [0.0] * nv
     return n * ma ** n, [n * n * ma ** (n - 1) * x for x in da]
-
-
-def tree_mag2(t, ea, da):
-    """(m, d1, d2): rigorous bounds of |phi|, |phi'|, |phi''| for phi(s) = tree(p + s d) when |p_i + s d_i| <= ea_i
-    and |d_i| = da_i (triangle inequality, |sin|,|cos| <= 1)"""
-    op = t[0]
-    if op == "C":
-        return abs(cval(t)), 0.0, 0.0
-    if op == "V":
-        return ea[t[1]], da[t[1]], 0.0
-    if op in "+-":
-        a, b = tree_mag2(t[1], ea, da), tree_mag2(t[2], ea, da)
-        return a[0] + b[0], a[1] + b[1], a[2] + b[2]
-    if op == "*":
-        a, b = tree_mag2(t[1], ea, da), tree_mag2(t[2], ea, da)
-        return a[0] * b[0], a[1] * b[0] + a[0] * b[1], a[2] * b[0] + 2 * a[1] * b[1] + a[0] * b[2]
-    a = tree_mag2(t[1], ea, da)
-    if op == "~":
-        return a
-    if op in "SK":
-        return 1.0, a[1], a[2] + a[1] * a[1]
-    n = t[2]
-    if n == 0:
-        return 1.0, 0.0, 0.0
-    if n == 1:
-        return a
-    return a[0] ** n, n * a[0] ** (n - 1) * a[1], n * (n - 1) * a[0] ** (n - 2) * a[1] ** 2 + n * a[0] ** (n - 1) * a[2]
 
 
 # ============================================================================= helpers
@@ -2216,7 +2190,8 @@ def nls_oracles(ctx, case, cinfo, sys_, ref, got, eps, dt, rr, full):
                 ctx.fail(cinfo, f"affine: ({'A' if nm == 'f' else 'C'} x* + {'B' if nm == 'f' else 'D'} u* + c)[{r_}] = {float(pred[r_])!r} but {nm}(x*,u*,t*={ts})[{r_}] = {float(want[r_])!r} "
                                 f"(tol {tol:.2e}; ref set at clock {ref['clock']} mode {ref['mode']}, read at clock {cinfo['read_clock']})", known_matcher=km)
                 ok = False
-    # (3) second-order error: |f(p*+h d) - affine(p*+h d)| <= max|phi''| h^2 / 2 (rigorous bound of phi'')
+    # (3) second-order error: |f(p*+h d) - affine(p*+h d)| <= K with the explicit constant of the Lean model
+    #     (`Fn.bnd`, theorem nls_second_order_explicit; evaluated by the driver op c15.bnd, checked in flush_second_order)
     if full:
         d = [rr.uniform(-1, 1) for _ in range(nx + nu)]
         for h in (1e-2, 1e-4):
@@ -2224,23 +2199,39 @@ def nls_oracles(ctx, case, cinfo, sys_, ref, got, eps, dt, rr, full):
             up = torch.tensor([ref["u"][j] + h * d[nx + j] for j in range(nu)], dtype=torch.float64)
             dx, du = xp - xd, up - ud
             env = [mp.mpf(float(v)) for v in xp.tolist()] + [mp.mpf(float(v)) for v in up.tolist()] + [mp.mpf(ts)]
-            ea2 = [abs(ref["x"][j]) + abs(float(dx[j])) for j in range(nx)] + [abs(ref["u"][j]) + abs(float(du[j])) for j in range(nu)] + [abs(ts)]
-            da = [abs(float(v)) / h for v in dx.tolist()] + [abs(float(v)) / h for v in du.tolist()] + [0.0]
+            ea2 = [(abs(ref["x"][j]) + abs(float(dx[j]))) * (1 + 1e-15) for j in range(nx)] + \
+                  [(abs(ref["u"][j]) + abs(float(du[j]))) * (1 + 1e-15) for j in range(nu)] + [abs(ts)]
+            da = [abs(float(v)) for v in dx.tolist()] + [abs(float(v)) for v in du.tolist()] + [0.0]      # |d| itself (h included)
             for nm, M1, M2, cc, trees in (("f", A, B, c1, case["fs"]), ("g", C, D, c2, case["gs"])):
                 pred = M1 @ xp + M2 @ up + cc
                 for r_, tr in enumerate(trees):
                     want = tree_mp(tr, env)
-                    m2 = tree_mag2(tr, ea2, da)
                     mg, dm = tree_mag(tr, ea2, nv)
                     scale = mg + sum(dm[j] * (abs(ref["x"][j]) + 1) for j in range(nx)) + sum(dm[nx + j] * (abs(ref["u"][j]) + 1) for j in range(nu))
-                    bound = 0.5 * m2[2] * h * h * 1.0001 + 64 * eps * max(1.0, tree_size(tr) / 24.0) * scale * 4 + \
-                        floor_(case["dtype"], scale, 4 * tree_size(tr))
+                    rounding = 64 * eps * max(1.0, tree_size(tr) / 24.0) * scale * 4 + floor_(case["dtype"], scale, 4 * tree_size(tr))
                     err = abs(mp.mpf(float(pred[r_])) - want)
-                    if not (err <= bound):
-                        ctx.fail(cinfo, f"second-order: |affine - {nm}|[{r_}] at distance h={h:g} is {float(err):.3e} > max|phi''| h^2/2 + rounding = {bound:.3e} "
-                                        f"(ref set at clock {ref['clock']} mode {ref['mode']}, read at clock {cinfo['read_clock']})", known_matcher=km)
-                        ok = False
+                    line = "c15.bnd " + " ".join(tree_tokens(tr, [])) + f" {nv} " + wire_list(ea2) + " " + wire_list(da)
+                    PENDING2.append((cinfo, line, float(err), rounding,
+                                     f"second-order: |affine - {nm}|[{r_}] at distance h={h:g} is {float(err):.3e} > K + rounding = %s "
+                                     f"(K = explicit second-order constant of the model; ref set at clock {ref['clock']} mode {ref['mode']}, read at clock {cinfo['read_clock']})"))
     return ok
+
+
+PENDING2 = []        # second-order checks waiting for the model's explicit constants (one driver batch per run_nls)
+
+
+def flush_second_order(ctx):
+    todo = list(PENDING2)
+    PENDING2.clear()
+    if not todo:
+        return
+    reps = ctx.driver.run([t_[1] for t_ in todo])
+    for (cinfo, _line, err, rounding, msg), rep in zip(todo, reps):
+        m0, l_, r_ = [float(v) for v in common.reply_nums(rep)]
+        bound = r_ * (1 + 1e-9) + rounding
+        ctx.count("nls.second-order.checked")
+        if not (err <= bound):
+            ctx.fail(cinfo, msg % f"{bound:.3e}")
 
 
 def run_nls(ctx: Ctx, cases, oracle_reads):
@@ -2252,6 +2243,8 @@ def run_nls(ctx: Ctx, cases, oracle_reads):
     for k_, case in enumerate(cases):
         md = parse_nls_reply(reps[k_], case)
         check_nls(ctx, case, md, None, budget)
+        if len(PENDING2) > 4000:
+            flush_second_order(ctx)
         ops = {}
         for t in case["fs"] + case["gs"]:
             tree_ops(t, ops)
@@ -2263,6 +2256,7 @@ def run_nls(ctx: Ctx, cases, oracle_reads):
         for e in case["events"]:
             ctx.count("nls.ev." + e["ev"] + ("" if e["ev"] != "ref" else "." + ("default" if e["t"] is None else ("live" if e["t"] == "live" else "value"))))
         ctx.count("nls." + case["dtype"])
+    flush_second_order(ctx)
     if cases:
         c0 = cases[0]
         ctx.sample({"stream": "nls", "nx": c0["nx"], "nu": c0["nu"], "dtype": c0["dtype"], "f": [" ".join(tree_tokens(t, [])) for t in c0["fs"]],
@@ -2273,7 +2267,7 @@ def run_nls(ctx: Ctx, cases, oracle_reads):
 
 def gen_bmv_case(seed, quick):
     rng = random.Random(seed)
-    fn = rng.choice(["bmv", "bmv", "bvv", "bvmv"])
+    fn = rng.choice(["bmv", "bmv", "bvv", "bvmv", "lti"])
     full = rng.choice(BATCHES)
     n, m = rng.choice([1, 2, 3, 4, 4, 7]), rng.choice([1, 2, 3, 4, 7])
     same = rng.random() < 0.2                  # the same tensor object passed as both vector arguments
@@ -2281,6 +2275,13 @@ def gen_bmv_case(seed, quick):
         m = n
     dtype = rng.choice(["float64", "float64", "float32"])
     b1 = sub_batch(rng, full)
+    if fn == "lti":       # one LTI forward with five independently broadcast batch shapes, whole batch through the model
+        return {"kind": "bmv", "seed": seed, "fn": "lti", "full": full, "n": rng.choice([1, 2, 3]), "m": rng.choice([1, 2]), "dtype": dtype,
+                "b1": b1, "b2": sub_batch(rng, full), "b3": sub_batch(rng, full), "bx": sub_batch(rng, full), "bu": sub_batch(rng, full),
+                "hasc": rng.random() < 0.6, "lie": False, "out": False, "dseed": rng.randrange(1 << 30)}
+    if rng.random() < 0.06:   # batch shapes that do not broadcast
+        return {"kind": "bmv", "seed": seed, "fn": fn, "full": full, "n": n, "m": m, "dtype": dtype, "b1": [], "b2": [],
+                "bad": rng.choice([[[2], [3]], [[2, 3], [2]], [[3, 1], [2, 2]], [[4], [2, 3]]]), "lie": False, "out": False, "dseed": rng.randrange(1 << 30)}
     return {"kind": "bmv", "seed": seed, "fn": fn, "full": full, "n": n, "m": m, "dtype": dtype,
             "b1": b1, "b2": sub_batch(rng, full), "b3": sub_batch(rng, full), "same": same,
             "scale": rng.choice([3.0, 3.0, 3.0] + ([1e-40, 1e40, 1e-9] if dtype == "float64" else [1e-8, 1e8])),
@@ -2289,7 +2290,92 @@ def gen_bmv_case(seed, quick):
             "out": rng.random() < 0.15, "dyadic": rng.random() < 0.4, "dseed": rng.randrange(1 << 30)}
 
 
+def bb_line(fn, n, m, tensors, extra=""):
+    """`c15.bb` request: batch shapes (rank dims…) of every operand, then the items row-major"""
+    core = {"bmv": [2, 1], "bvv": [1, 1], "bvmv": [1, 2, 1]}.get(fn)
+    if core is None:
+        core = [2, 1, 2, 1, 1][:len(tensors)]                       # lti: A x B u [c]
+    shp = []
+    for t_, c_ in zip(tensors, core):
+        b_ = list(t_.shape[:t_.ndim - c_])
+        shp.append(f"{len(b_)} " + " ".join(map(str, b_)) if b_ else "0")
+    data = " ".join(wire_list(t_.double().contiguous().reshape(-1).tolist()) for t_ in tensors)
+    return f"c15.bb {fn} {n} {m} {extra}" + " ".join(shp) + " " + data
+
+
+def parse_bb(rep):
+    """-> None (the model says: shapes do not broadcast) | (shape, values)"""
+    st, toks = common.parse_reply(rep)
+    if st != "ok":
+        raise common.InfraError(f"model error on bb line: {rep}")
+    toks = [t_ for t_ in toks if t_ != ""]
+    if toks[0] == "R":
+        return None
+    r_ = int(toks[1])
+    shape = [int(t_) for t_ in toks[2:2 + r_]]
+    assert toks[2 + r_] == "V"
+    return shape, [common.from_wire(t_) for t_ in toks[3 + r_:]]
+
+
+def check_bb_bad(ctx: Ctx, case):
+    """batch shapes that do not broadcast: the helper raises (and the model says so)"""
+    P = pp()
+    fn, n, m = case["fn"], case["n"], case["m"]
+    dt = DT(case["dtype"])
+    g = torch.Generator().manual_seed(case["dseed"])
+    ba, bb_ = case["bad"]
+    mk = lambda b_, c_: torch.randn(tuple(b_) + tuple(c_), generator=g, dtype=torch.float64).to(dt)
+    if fn == "bmv":
+        raw = [mk(ba, (n, m)), mk(bb_, (m,))]
+    elif fn == "bvv":
+        raw = [mk(ba, (n,)), mk(bb_, (m,))]
+    else:
+        raw = [mk(ba, (n,)), mk(bb_, (n, m)), mk(ba, (m,))]
+    try:
+        getattr(P, fn)(*raw)
+        ctx.fail(pub(case), f"bmv-no-raise: {fn} returned for batch shapes {ba} and {bb_} that do not broadcast")
+    except Exception:
+        pass
+    case["_bb"] = (bb_line(fn, n, m, raw), None, None, None)
+    return True
+
+
+def check_ltib(ctx: Ctx, case):
+    """one forward of an LTI system whose five tensors have independent batch shapes — the whole batch against the
+    model's `affineB` (theorem lti_batched)"""
+    P = pp()
+    n, m, full = case["n"], case["m"], case["full"]
+    dt, eps = DT(case["dtype"]), common.EPS[case["dtype"]]
+    g = torch.Generator().manual_seed(case["dseed"])
+    mk = lambda b_, c_: (torch.round(torch.randn(tuple(b_) + tuple(c_), generator=g, dtype=torch.float64) * 8) / 8).to(dt)
+    A, B = mk(case["b1"], (n, n)), mk(case["b2"], (n, m))
+    c = mk(case["b3"], (n,)) if case["hasc"] else None
+    x, u = mk(case["bx"], (n,)), mk(case["bu"], (m,))
+    sys_ = P.module.LTI(A, B, A.clone(), B.clone(), c, None if c is None else c.clone())
+    try:
+        xn, y = sys_(x, u)
+    except Exception as ex:
+        ctx.fail(pub(case), f"lin-raises: batched LTI call raised {type(ex).__name__}: {str(ex)[:100]}")
+        return False
+    bs = torch.broadcast_shapes(*[tuple(b_) for b_ in ([case["b1"], case["b2"], case["bx"], case["bu"]] + ([case["b3"]] if case["hasc"] else []))])
+    if tuple(xn.shape) != tuple(bs) + (n,) or not torch.equal(xn, y):
+        ctx.fail(pub(case), f"lin-shape: batched LTI call returned shape {tuple(xn.shape)} (expected {tuple(bs) + (n,)}) or observation != transition for C=A, D=B, c2=c1")
+        return False
+    Ad, Bd, xd, ud = A.double(), B.double(), x.double(), u.double()
+    mag = torch.matmul(Ad.abs(), xd.abs().unsqueeze(-1)).squeeze(-1) + torch.matmul(Bd.abs(), ud.abs().unsqueeze(-1)).squeeze(-1)
+    if c is not None:
+        mag = mag + c.double().abs()
+    tens = [A, x, B, u] + ([c] if c is not None else [])
+    case["_bb"] = (bb_line("lti", n, m, tens, extra=f"{1 if c is not None else 0} "), list(bs), xn.double().reshape(-1).tolist(),
+                   torch.broadcast_to(mag, tuple(bs) + (n,)).reshape(-1).tolist())
+    return True
+
+
 def check_bmv(ctx: Ctx, case):
+    if case.get("bad"):
+        return check_bb_bad(ctx, case)
+    if case["fn"] == "lti":
+        return check_ltib(ctx, case)
     P = pp()
     g = torch.Generator().manual_seed(case["dseed"])
     dt, eps = DT(case["dtype"]), common.EPS[case["dtype"]]
@@ -2387,6 +2473,15 @@ def check_bmv(ctx: Ctx, case):
     if tuple(y.shape) != want_shape:
         ctx.fail(pub(case), f"bmv-shape: {fn} returned shape {tuple(y.shape)}, expected {want_shape}")
         return False
+    # the whole batch through the model's broadcasting (bmv_batched / bvv_batched / bvmv_batched): shapes and every entry
+    rd = [a_.double() for a_ in raw]
+    if fn == "bmv":
+        magall = torch.matmul(rd[0].abs(), rd[1].abs().unsqueeze(-1)).squeeze(-1)
+    elif fn == "bvv":
+        magall = torch.matmul(rd[0].abs().unsqueeze(-1), rd[1].abs().unsqueeze(-1).mT)
+    else:
+        magall = (rd[0].abs().unsqueeze(-1).mT @ rd[1].abs() @ rd[2].abs().unsqueeze(-1)).squeeze(-1).squeeze(-1)
+    case["_bb"] = (bb_line(fn, n, m, raw), list(bs), y.double().reshape(-1).tolist(), magall.reshape(-1).tolist())
     idxs = [()] if not bs else [tuple(i) for i in torch.cartesian_prod(*[torch.arange(s) for s in bs]).reshape(-1, len(bs)).tolist()]
     if len(idxs) > 3:
         rr = random.Random(case["seed"] ^ 5)
@@ -2426,13 +2521,35 @@ def run_bmv(ctx: Ctx, cases):
     for case in cases:
         guarded(ctx, case, check_bmv)
         ls, gots = case.pop("_lines", []), case.pop("_got", [])
-        ctx.note_case(("bmv", case["fn"], case["n"], case["m"], tuple(case["full"]), tuple(case["b1"]), tuple(case["b2"]), case["dtype"], case["lie"], case["out"]), True)
-        ctx.count("bmv." + case["fn"])
+        ctx.note_case(("bmv", case["fn"], case["n"], case["m"], tuple(case["full"]), tuple(case["b1"]), tuple(case["b2"]), case["dtype"], case["lie"], case["out"],
+                       str(case.get("bad")), tuple(case.get("bx", [])), tuple(case.get("bu", []))), True)
+        ctx.count("bmv." + case["fn"] + (".bad-batch" if case.get("bad") else ""))
         for ln, gm in zip(ls, gots):
             lines.append(ln)
             metas.append((case, gm))
+        bbi = case.pop("_bb", None)
+        if bbi is not None:
+            lines.append(bbi[0])
+            metas.append((case, ("BB",) + tuple(bbi[1:])))
     reps = ctx.driver.run(lines)
-    for rep, (case, (gi, mags)) in zip(reps, metas):
+    for rep, (case, gm_) in zip(reps, metas):
+        if gm_[0] == "BB":
+            _, bs_, yv, mg_ = gm_
+            res = parse_bb(rep)
+            eps = common.EPS[case["dtype"]]
+            if bs_ is None:
+                if res is not None:
+                    ctx.disagree("bmv.batch", pub(case), f"{case['fn']}: the model broadcasts batch shapes {case['bad']}, the implementation's contract says they do not")
+                continue
+            if res is None or res[0] != bs_ or len(res[1]) != len(yv):
+                ctx.disagree("bmv.batch", pub(case), f"{case['fn']}: implementation batch shape {bs_} ({len(yv)} entries), model {None if res is None else res[0]}")
+                continue
+            for q_, (gv, w, mg) in enumerate(zip(yv, res[1], mg_)):
+                if not (abs(Fraction(gv) - w) <= 64 * eps * mg + 1e-300):
+                    ctx.disagree("bmv.batch", pub(case), f"{case['fn']} whole-batch entry {q_}: implementation {gv!r} model {float(w)!r}")
+                    break
+            continue
+        gi, mags = gm_
         want = common.reply_nums(rep)
         eps = common.EPS[case["dtype"]]
         if len(want) != len(gi):
@@ -2586,6 +2703,12 @@ BMV_CORPUS = [
     _bmv(10, "bmv", 2, 2, [2], [2], [], scale=1e40, dyadic=False),
     _bmv(11, "bvv", 7, 7, [2], [2], [2], layout=["expand", "expand", "c"]),
     _bmv(12, "bvv", 2, 3, [2], [2], [2], out=True),
+    {"kind": "bmv", "corpus": 18, "seed": 9218, "fn": "lti", "full": [2, 3], "n": 2, "m": 1, "dtype": "float64", "b1": [3], "b2": [2, 1], "b3": [1, 3], "bx": [], "bu": [2, 3],
+     "hasc": True, "lie": False, "out": False, "dseed": 718},
+    {"kind": "bmv", "corpus": 19, "seed": 9219, "fn": "lti", "full": [3], "n": 3, "m": 2, "dtype": "float32", "b1": [], "b2": [3], "b3": [], "bx": [3], "bu": [1],
+     "hasc": False, "lie": False, "out": False, "dseed": 719},
+    {"kind": "bmv", "corpus": 20, "seed": 9220, "fn": "bmv", "full": [], "n": 2, "m": 2, "dtype": "float64", "b1": [], "b2": [], "bad": [[2, 3], [2]], "lie": False, "out": False, "dseed": 720},
+    {"kind": "bmv", "corpus": 21, "seed": 9221, "fn": "bvmv", "full": [], "n": 2, "m": 3, "dtype": "float64", "b1": [], "b2": [], "bad": [[3, 1], [2, 2]], "lie": False, "out": False, "dseed": 721},
     _bmv(13, "bvv", 3, 3, [2], [2], [2], lie=True, lie_which=2, dyadic=False),
     _bmv(14, "bvmv", 3, 3, [2], [2], [], [2], lie=True, lie_which=5, dyadic=False),
     _bmv(15, "bmv", 2, 3, [3], [3], [3], lie=True, lie_which=1, mode="no_grad"),
